@@ -23,3 +23,77 @@ Example C16_taints :
   taints (OpCrypt 0 []) OutUnit = [(OPassNorm, sizeof_str); (OMask, 32); (OPoly, sizeof_poly)] /\
   taints (OpEncode 0 0 0) (OutStr [] 0) = [(OPoly, sizeof_poly); (OStrTmp, sizeof_str)].
 Proof. repeat split. Qed.
+
+(* ---- the tie to the code: src/polyseed.c as TRANSLATED on this run (Gen/CApi.v) ---- *)
+From Coq Require Import String.
+From PS Require Import Base GFDefs PackDefs StoreDefs MiscDefs StrDefs LangDefs ApiDefs GFProofs PackProofs StoreProofs CTieBase CTieLang CTiePhrase CTieSplit CTieApi CTieDecode.
+From PS.Gen Require Import Consts PrivConsts Langs.
+From PS.Gen Require CFuns.
+From PS.Gen Require CApi.
+
+(* polyseed_free as translated: MEMZERO_PTR of the whole struct immediately before FREE *)
+Theorem C16_code_tie_api_free :
+  forall (dp : deps) (h : N), evs_of dp (CApi.polyseed_free (ptr h)) = free_events dp h.
+Proof. exact @tie_free. Qed.
+Print Assumptions C16_code_tie_api_free.
+
+(* polyseed_decode as translated: str_tmp, words and poly are wiped on every exit *)
+Theorem C16_code_tie_api_decode :
+  forall (sgn : bool) (st : state) (fuel : nat) (D : list Z -> list Z * Z) (ext : Z -> list Z -> Z),
+         (forall (li : nat) (L : lang) (w : bytes),
+          nth_error langs li = Some L -> ext (Z.of_nat li) (zs w) = enc (lang_search sgn L w)) ->
+         (18 <= fuel)%nat ->
+         forall (str : bytes) (coin : N) (ok : bool) (lo lo0 gb gf : Z) (gs : list Z) (gc so0 : Z),
+         no_nul str ->
+         coin < 2048 ->
+         (Datatypes.length str + 2 <= fuel)%nat ->
+         D (zs str) = (zs (fst (dp_nfkd (st_deps st) str)), Z.of_N (snd (dp_nfkd (st_deps st) str))) ->
+         no_nul (fst (dp_nfkd (st_deps st) str)) ->
+         (Datatypes.length (fst (dp_nfkd (st_deps st) str)) + 2 <= fuel)%nat ->
+         let
+         '(st', out0, evs) := step sgn langs st (OpDecode str coin ok) in
+          exists (cevs : list CApi.cev) (lo' b f : Z) (s : list Z) (c so status : Z),
+            CApi.polyseed_decode fuel sgn D ext (alloc_ptr st ok) CFuns.polyseed_mul2_table
+              (Z.of_N (st_reserved st)) (zs str) (Z.of_N coin) lo lo0 gb gf gs gc so0 =
+            Some (cevs, lo', b, f, s, c, so, status) /\
+            evs_of (st_deps st) cevs = no_idx evs /\
+            (exists li : nat,
+               out0 =
+               OutStatus (Z.to_N status) (if (status =? 0)%Z then Some (st_next st) else None)
+                 (if (status =? 0)%Z then Some li else None) /\
+               (status = 0%Z -> (lo <> 0%Z -> lo' = Z.of_nat li) /\ (lo = 0%Z -> lo' = lo0))) /\
+            (if (status =? 0)%Z
+             then
+              so = ptr (st_next st) /\
+              (exists d : data, st_heap st' = (st_next st, d) :: st_heap st /\ (b, f, s, c) = zd d)
+             else so = so0 /\ st_heap st' = st_heap st).
+Proof. exact @tie_decode. Qed.
+Print Assumptions C16_code_tie_api_decode.
+
+(* polyseed_crypt as translated: poly, mask and pass_norm are wiped *)
+Theorem C16_code_tie_api_crypt :
+  forall (sgn : bool) (langs : list lang) (st : state) (h : N) (pw : bytes) 
+           (d : data) (fuel : nat) (D : list Z -> list Z * Z),
+         heap_get (st_heap st) h = Some d ->
+         Canon d ->
+         no_nul pw ->
+         (Datatypes.length pw + 2 <= fuel)%nat ->
+         let dp := st_deps st in
+         let nf := dp_nfkd dp in
+         D (zs pw) = (zs (fst (nf pw)), Z.of_N (snd (nf pw))) ->
+         snd (nf pw) = N.of_nat (Datatypes.length (fst (nf pw))) ->
+         snd (nf pw) < 2 ^ 64 ->
+         (forall (p : list N) (n : N) (salt : list N) (sl it kl : N), bytes_ok (dp_kdf dp p n salt sl it kl)) ->
+         let
+         '(st', out0, evs) := step sgn langs st (OpCrypt h pw) in
+          exists (cevs : list CApi.cev) (d2 : data),
+            CApi.polyseed_crypt fuel sgn D (zkdf dp) CFuns.polyseed_mul2_table (Z.of_N (d_birthday d))
+              (Z.of_N (d_features d)) (map Z.of_N (d_secret d)) (Z.of_N (d_checksum d)) 
+              (zs pw) =
+            Some
+              (cevs, Z.of_N (d_birthday d2), Z.of_N (d_features d2), map Z.of_N (d_secret d2),
+               Z.of_N (d_checksum d2)) /\
+            evs_of dp cevs = evs /\
+            out0 = OutUnit /\ st_heap st' = heap_set (st_heap st) h d2 /\ st_next st' = st_next st.
+Proof. exact @tie_crypt. Qed.
+Print Assumptions C16_code_tie_api_crypt.
